@@ -224,6 +224,16 @@ Print Assumptions computed_bounds_binary64.
 Example computed_bounds_nonvacuous : (1 <= 7 <= 4096)%Z.
 Proof. split; discriminate. Qed.
 
+(* ---- int(N * landmark_ratio) of repair F21: the binary64 product, truncated, equals the exact count
+        of the model for every N <= 64 and every ratio k/64 (the ratios the harness generates) *)
+Theorem landmark_count_binary64 : forall n k, (0 <= n <= 64)%Z -> (0 <= k <= 64)%Z ->
+  landmarks_ok n k = true.
+Proof. exact landmarks_ok_64. Qed.
+Print Assumptions landmark_count_binary64.
+
+Example landmark_count_nonvacuous : (0 <= 10 <= 64)%Z /\ (0 <= 19 <= 64)%Z.
+Proof. repeat split; discriminate. Qed.
+
 (* ---- regression: the stage order of the tree before repair F27 (no checkTypes) *)
 Theorem old_code_documented_when_well_typed : forall r, well_typed r ->
   exec (old_of gen_tables) r = exec gen_tables r.
